@@ -161,6 +161,17 @@ def Op.projectSide (o : Op) (side l : String) (edges points : Bool) : Option Op 
       some ([i1 + 4, i2 + 4, i1, i2].foldl (fun o c => o.projectCorner c l) o)
     else some o
 
+/-- the side names that `Operation.get_patches_at_corner` consults for a corner: bottom or top, then the
+    side of that index and the previous one -/
+def sidesAtCorner (c : Nat) : List String :=
+  [if c < 4 then "bottom" else "top", CBV.Gen.sidesMap.getD (c % 4) "?", CBV.Gen.sidesMap.getD ((c + 3) % 4) "?"]
+
+/-- `Operation.get_patches_at_corner` (as a duplicate-free list in consultation order) -/
+def Op.patchesAtCorner (o : Op) (c : Nat) : List String :=
+  let first := if c < 4 then o.bottomPatch else o.topPatch
+  let cands := [first, o.sidePatches.getD (c % 4) none, o.sidePatches.getD ((c + 3) % 4) none]
+  (cands.filterMap id).eraseDups
+
 /-- What the assembled block shows: patch name per side, projection per side, labels per
     undirected block edge (ascending corner pair), labels per corner. -/
 structure View where
@@ -206,6 +217,9 @@ def showView (v : View) : String :=
   let cor := ";".intercalate (v.corners.map (fun (c, l) => s!"{c}:" ++ "+".intercalate l))
   s!"P[{pats}] F[{facs}] E[{eds}] C[{cor}]"
 
+def showCornerPatches (o : Op) : String :=
+  ";".intercalate ((List.range 8).map (fun c => "+".intercalate (o.patchesAtCorner c)))
+
 def applyCall (o : Op) (call : String) : Option Op :=
   match call.splitOn ":" with
   | ["patch", side, name] => o.setPatch side name
@@ -221,7 +235,7 @@ def handleAddr (args : List String) : Option String :=
   match args with
   | [calls] =>
       let r := (calls.splitOn ";").foldl (fun (o : Option Op) c => o.bind (applyCall · c)) (some {})
-      some (match r with | some o => showView o.view | none => "reject")
+      some (match r with | some o => showView o.view ++ " K[" ++ showCornerPatches o ++ "]" | none => "reject")
   | _ => none
 
 def applyFaceOp (f : Face Nat Nat) (pos : List V3) (op : String) : Option (Face Nat Nat) :=
